@@ -117,16 +117,19 @@ def lemma(ss, name, cond, timeout=20.0):
         S.ctx().fact(t)
 
 
-def prove_close_poly(ss, name, a, b, eps, bound, key=None, payload=None, describe=None, timeout=60.0, limit=40000):
-    """Obligation |a - b| <= eps for every assignment of the variables in [-bound, bound].
+def prove_close_poly(ss, name, a, b, eps, bound, key=None, payload=None, describe=None, timeout=60.0, limit=40000, var_bounds=None):
+    """Obligation |a - b| <= eps for every assignment of the variables in their boxes
+    ([-bound, bound], or var_bounds[name] = (lo, hi) for the variables listed there).
 
-    a - b is expanded into a polynomial; every non-constant monomial is replaced by a fresh
-    real variable ranging over [-bound^deg, bound^deg] ([0, bound^deg] for monomials that are
-    squares).  The abstraction over-approximates the reachable values, so 'unsat' of the linear
-    query proves the bound; a 'sat' answer of the abstraction is only kept when a concrete
-    assignment of the original variables (searched by evaluation at corners and seeded random
-    points, then replayed on the real code by the harness) violates the bound, otherwise the
-    full non-linear query decides."""
+    a - b is expanded into a polynomial; every non-constant monomial c_k m_k is replaced by a fresh
+    real variable t_k ranging over the interval of c_k m_k on the box (one-sided for even monomials).
+    The abstraction over-approximates the reachable values, so 'unsat' of the linear queries proves
+    the bound.  The monomials are handled in chunks of 250: chunk g gets the tolerance e_g with
+    sum_g e_g = eps (allocated in proportion to the chunks' interval widths), and z3 decides
+    |sum of chunk g| <= e_g in linear real arithmetic.  A 'sat' answer of the abstraction is only
+    kept when a concrete assignment of the original variables (searched by evaluation at corners and
+    seeded random points, then replayed on the real code by the harness) violates the bound,
+    otherwise the full non-linear query decides."""
     import random
 
     d = T.sub(a, b)
@@ -136,24 +139,46 @@ def prove_close_poly(ss, name, a, b, eps, bound, key=None, payload=None, describ
     if p is None or any(t.op != "var" for t in atoms.values()):
         return ss.prove(name, facts(), far(a, b, eps), key=key, payload=payload, describe=describe, timeout=timeout)
     B = Fraction(bound)
-    # scaled monomials t_k = c_k * m_k range over [-|c_k| B^deg, |c_k| B^deg] ([0, .] or [., 0] for squares);
-    # the sum is decided chunk by chunk (|sum over chunk| <= eps / #chunks), each a small linear query
+    var_bounds = var_bounds or {}
+
+    def box(aid):
+        nm = atoms[aid].args[0]
+        lo, hi = var_bounds.get(nm, (-B, B))
+        return Fraction(lo), Fraction(hi)
+
+    def mono_range(k):
+        lo, hi = Fraction(1), Fraction(1)
+        for aid, e in k:
+            l, h = box(aid)
+            if e % 2 == 0:
+                cands = [l**e, h**e]
+                pl, ph = (Fraction(0) if l <= 0 <= h else min(cands)), max(cands)
+            else:
+                pl, ph = l**e, h**e
+            prods = [lo * pl, lo * ph, hi * pl, hi * ph]
+            lo, hi = min(prods), max(prods)
+        return lo, hi
+
     items = []
     for k, c in sorted(p.items()):
         if k == ():
             continue
-        deg = sum(e for _a, e in k)
-        h = abs(c) * B**deg
-        if all(e % 2 == 0 for _a, e in k):
-            lo, hi = (Fraction(0), h) if c > 0 else (-h, Fraction(0))
-        else:
-            lo, hi = -h, h
+        lo, hi = mono_range(k)
+        lo, hi = (c * lo, c * hi) if c > 0 else (c * hi, c * lo)
         items.append((lo, hi))
     c0 = p.get((), Fraction(0))
     chunk = 250
     groups = [items[i : i + chunk] for i in range(0, len(items), chunk)] or [[]]
-    e_g = Fraction(eps) / len(groups)
+    # tolerance allocation: proportional to the interval half-widths (plus the constant term in chunk 0)
+    need = [max(abs(sum(lo for lo, _ in g) + (c0 if gi == 0 else 0)), abs(sum(hi for _, hi in g) + (c0 if gi == 0 else 0))) for gi, g in enumerate(groups)]
+    tot_need = sum(need)
+    E = Fraction(eps)
+    if tot_need > 0:
+        e_gs = [E * n / tot_need if tot_need > E else n + (E - tot_need) / len(groups) for n in need]
+    else:
+        e_gs = [E / len(groups)] * len(groups)
     status, secs, reason = "unsat", 0.0, None
+    r = None
     for gi, grp in enumerate(groups):
         F = []
         ts = [T.const(c0, "R")] if gi == 0 else []
@@ -162,7 +187,7 @@ def prove_close_poly(ss, name, a, b, eps, bound, key=None, payload=None, describ
             F += [T.ge(t, T.const(lo, "R")), T.le(t, T.const(hi, "R"))]
             ts.append(t)
         ssum = T.add(*ts) if ts else T.ZERO
-        e = T.const(e_g, "R")
+        e = T.const(e_gs[gi], "R")
         r = ss.prove("%s.chunk%d" % (name, gi) if len(groups) > 1 else name, F, T.bor(T.gt(ssum, e), T.lt(ssum, T.neg(e))), key=key, describe=describe, timeout=timeout)
         r["how"] = "monomial abstraction (%d of %d monomials, linear real arithmetic)" % (len(grp), len(items))
         secs += r.get("seconds", 0.0)
@@ -172,7 +197,7 @@ def prove_close_poly(ss, name, a, b, eps, bound, key=None, payload=None, describ
             break
     if len(groups) > 1:
         rec = ss._rec(kind="obligation", name=name, key=key or name, status=status, seconds=round(secs, 4), describe=describe)
-        rec["how"] = "monomial abstraction: %d monomials in %d chunks, each |chunk sum| <= eps/%d by linear real arithmetic" % (len(items), len(groups), len(groups))
+        rec["how"] = "monomial abstraction: %d monomials in %d chunks, |chunk sum| <= e_g with sum e_g = eps, by linear real arithmetic" % (len(items), len(groups))
         if reason:
             rec["reason"] = reason
         if status == "sat":
@@ -181,17 +206,22 @@ def prove_close_poly(ss, name, a, b, eps, bound, key=None, payload=None, describ
             r["kind"] = "note"
     else:
         rec = r
+    rec["abstraction_bound"] = float(tot_need)
     if rec["status"] != "sat":
         return rec
     # concrete witness in the original variables
     vs = list(atoms.values())
+    ids = {t: aid for aid, t in atoms.items()}
     rnd = random.Random(11)
     found = None
     for trial in range(400):
-        if trial < 200:
-            env = {v: (B if rnd.random() < 0.5 else -B) for v in vs}
-        else:
-            env = {v: Fraction(rnd.uniform(-float(B), float(B))).limit_denominator(1000) for v in vs}
+        env = {}
+        for v in vs:
+            l, h = box(ids[v])
+            if trial < 200:
+                env[v] = h if rnd.random() < 0.5 else l
+            else:
+                env[v] = Fraction(rnd.uniform(float(l), float(h))).limit_denominator(1000)
         try:
             val = T.evaluate([d], env, exact=True)[0]
         except Exception:
@@ -201,8 +231,17 @@ def prove_close_poly(ss, name, a, b, eps, bound, key=None, payload=None, describ
             break
     rec.pop("model", None)
     if found is None:
-        r2 = ss.prove(name + ".nonlinear", [T.ge(v, T.const(-B, "R")) for v in vs] + [T.le(v, T.const(B, "R")) for v in vs], far(a, b, eps), key=key, payload=payload, describe=describe, timeout=timeout)
-        rec["status"] = "unsat" if r2["status"] == "unsat" else "unknown"
+        box_f = []
+        for v in vs:
+            l, h = box(ids[v])
+            box_f += [T.ge(v, T.const(l, "R")), T.le(v, T.const(h, "R"))]
+        r2 = ss.prove(name + ".nonlinear", box_f, far(a, b, eps), key=key, payload=payload, describe=describe, timeout=timeout)
+        rec["status"] = "unsat" if r2["status"] == "unsat" else ("sat" if r2["status"] == "sat" else "unknown")
+        if r2["status"] == "sat":
+            r2["kind"] = "note"
+            rec["model"] = r2.get("model")
+            if "payload" in r2:
+                rec["payload"] = r2["payload"]
         rec["reason"] = "abstraction satisfiable; decided by the non-linear query" if r2["status"] != "unknown" else "abstraction satisfiable, no concrete witness found, non-linear query undecided"
         return rec
     model = {v.args[0]: float(x) for v, x in found.items()}
@@ -210,3 +249,61 @@ def prove_close_poly(ss, name, a, b, eps, bound, key=None, payload=None, describ
     if payload is not None:
         rec["payload"] = payload(model)
     return rec
+
+
+def poly_sup_bound(t, bound, limit=40000):
+    """upper bound of |t| on the box [-bound, bound]^n from its monomial expansion (None when t is not a polynomial in variables)"""
+    memo = {}
+    p = T._poly_of(t, limit, memo)
+    if p is None or any(x.op != "var" for x in memo.get("atoms", {}).values()):
+        return None
+    B = Fraction(bound)
+    return sum(abs(c) * B ** sum(e for _a, e in k) for k, c in p.items())
+
+
+def poly_to_term(p, atoms):
+    """monomial dictionary of T._poly_of -> Term"""
+    monos = []
+    for k in sorted(p):
+        fs = [T.const(p[k], "R")]
+        for a, e in k:
+            fs.append(atoms[a] if e == 1 else T.ipow(atoms[a], e))
+        monos.append(T.mul(*fs))
+    return T.add(*monos) if monos else T.ZERO
+
+
+def reduce_circle(p, atoms, pairs):
+    """normal form of a polynomial modulo c^2 + s^2 = 1 for each (c, s) pair of variables: powers of s above 1 are
+    rewritten with s^2 = 1 - c^2 (the normal form is unique, so a polynomial that vanishes on the circles has zero coefficients)"""
+    ids = {t: a for a, t in atoms.items()}
+    for c, s in pairs:
+        if s not in ids:
+            continue
+        sid = ids[s]
+        if c not in ids:
+            atoms[c.id] = c
+            ids[c] = c.id
+        cid = ids[c]
+        out = {}
+        for k, v in p.items():
+            d = dict(k)
+            e = d.pop(sid, 0)
+            h, r = divmod(e, 2)
+            base_c = d.pop(cid, 0)
+            # (1 - c^2)^h = sum_j binom(h, j) (-1)^j c^(2j)
+            for j in range(h + 1):
+                coef = v * math.comb(h, j) * (-1) ** j
+                d2 = dict(d)
+                ce = base_c + 2 * j
+                if ce:
+                    d2[cid] = ce
+                if r:
+                    d2[sid] = r
+                kk = tuple(sorted(d2.items()))
+                nv = out.get(kk, 0) + coef
+                if nv == 0:
+                    out.pop(kk, None)
+                else:
+                    out[kk] = nv
+        p = out
+    return p
